@@ -28,7 +28,8 @@ RULE = ("case = one point of the lattice functional{rootfinder,equilibrium,minim
         "differentiable tensor, compared with the reference; distinct = distinct rounded observation")
 RULE_ADDED = ('Added later: objects listing a NON-differentiable tensor before / after the differentiable ones (Edi'
               'tableModule and nn.Module with a frozen parameter), forward-mode product at an exactly zero differen'
-              'tiable cotangent, 24-unknown systems for the iterative backward solvers.')
+              'tiable cotangent, 24-unknown systems for the iterative backward solvers. Round 4: placement explicit'
+              '_view (matrix leaf and its transposed view as two explicit parameters).')
 ASSUMPTIONS = [
     "reference = two Newton steps unrolled in plain torch from the detached returned point on the shifted residual "
     "f(y, theta) - f(y_ret, theta0) (so that the returned point is an exact root and the reference is the IFT formula "
